@@ -75,6 +75,9 @@ void useQueues()
 		q.enqueue(std::string("k"), Payload()); std::string k; Payload p; q.enqueue(k, p);
 		(void)q.processIf([](const std::string &, const Payload &) { return true; });
 		(void)q.processUntil([](const std::string &, const Payload &) { return true; });
+		// predicates taking the by-value prototype arguments by value: they must receive copies, never the stored objects themselves
+		(void)q.processIf([](std::string, Payload) { return true; });
+		(void)q.processUntil([](std::string, Payload) { return false; });
 	}
 	{
 		using Q = eventpp::EventQueue<std::string, void (Payload, std::unique_ptr<int> &), PoliciesExclude>;
